@@ -36,7 +36,7 @@ use gimli::{
 use indexmap::IndexMap;
 use log::debug;
 use memmap2::Mmap;
-use object::{Object, ObjectSection};
+use object::{Object, ObjectSection, ObjectSegment};
 use rayon::prelude::*;
 use regex::Regex;
 use std::collections::{HashMap, HashSet};
@@ -52,6 +52,9 @@ pub type EndianArcSlice = gimli::EndianArcSlice<gimli::RunTimeEndian>;
 
 pub struct DebugInformation<R: gimli::Reader = EndianArcSlice> {
     file: PathBuf,
+    /// Lowest virtual address of the loadable segments (page aligned): zero for
+    /// position-independent objects, the link address for executables of a fixed address.
+    image_base: u64,
     inner: Dwarf<R>,
     eh_frame: EhFrame<R>,
     debug_frame: Option<DebugFrame<R>>,
@@ -70,6 +73,7 @@ impl Clone for DebugInformation {
     fn clone(&self) -> Self {
         Self {
             file: self.file.clone(),
+            image_base: self.image_base,
             inner: Dwarf {
                 debug_abbrev: self.inner.debug_abbrev.clone(),
                 debug_addr: self.inner.debug_addr.clone(),
@@ -117,6 +121,11 @@ impl DebugInformation {
     /// Return path to executable file with (possible) debug information.
     /// In case of executable contains debug information in separate file this file may not have
     /// a debug information but contains a link to it.
+    /// Lowest (page aligned) virtual address of the object's loadable segments.
+    pub fn image_base(&self) -> u64 {
+        self.image_base
+    }
+
     pub fn pathname(&self) -> &Path {
         self.file.as_path()
     }
@@ -764,6 +773,13 @@ impl DebugInformationBuilder {
             RunTimeEndian::Big
         };
 
+        let image_base = file
+            .segments()
+            .map(|segment| segment.address())
+            .min()
+            .unwrap_or(0)
+            & !0xFFF;
+
         let eh_frame = EhFrame::load(|id| -> Result<EndianArcSlice, Error> {
             loader::load_section(id, file, endian)
         })?;
@@ -861,6 +877,7 @@ impl DebugInformationBuilder {
 
             return Ok(DebugInformation {
                 file: obj_path.to_path_buf(),
+                image_base,
                 inner: dwarf,
                 eh_frame,
                 debug_frame,
@@ -897,6 +914,7 @@ impl DebugInformationBuilder {
 
         Ok(DebugInformation {
             file: obj_path.to_path_buf(),
+            image_base,
             inner: dwarf,
             eh_frame,
             debug_frame,
